@@ -330,11 +330,13 @@ def tr_neg_fold(bld_mod):
     c = cases[0]
     p = c.pattern
     ok = (isinstance(p, ast.MatchSequence) and len(p.patterns) == 2 and c.guard is None
-          and _class_pat(p.patterns[0], {"ast.USub"}) and not p.patterns[0].patterns
-          and isinstance(p.patterns[1], ast.MatchAs) and p.patterns[1].name)
+          and _class_pat(p.patterns[0], {"ast.USub"}) and not p.patterns[0].patterns)
     if not ok:
         raise TranslatorError(f"folding pattern `{_u(p)}`")
-    cname, inner = p.patterns[1].name, p.patterns[1].pattern
+    # operand pattern: `ast.Constant(value=float(v) | int(v))`, optionally `... as const`
+    inner, cname = p.patterns[1], None
+    if isinstance(inner, ast.MatchAs) and inner.pattern is not None:
+        cname, inner = inner.name, inner.pattern
     if not (isinstance(inner, ast.MatchClass) and _u(inner.cls) == "ast.Constant" and not inner.patterns
             and inner.kwd_attrs == ["value"]):
         raise TranslatorError(f"folding pattern `{_u(p)}`")
@@ -350,10 +352,18 @@ def tr_neg_fold(bld_mod):
     if var is None:
         raise TranslatorError("folding pattern does not cover int constants")
     b = c.body
-    if not (len(b) == 2 and isinstance(b[0], ast.Assign) and _u(b[0].targets[0]) == f"{cname}.value"
+    value_expr = None
+    if (cname and len(b) == 2 and isinstance(b[0], ast.Assign) and _u(b[0].targets[0]) == f"{cname}.value"
             and _u(b[1]) == f"return with_loc(node, {cname})"):
-        raise TranslatorError(f"folding body `{_u(c)[:120]}`")
-    t, ty = ExprTr(env={var: ("v", "Z")}).expr(b[0].value)
+        value_expr = b[0].value                      # in-place: const.value = <e>; return with_loc(node, const)
+    elif len(b) == 1 and isinstance(b[0], ast.Return) and isinstance(b[0].value, ast.Call) \
+            and _u(b[0].value.func) == "with_loc" and len(b[0].value.args) == 2 and _u(b[0].value.args[0]) == "node":
+        k = b[0].value.args[1]                       # fresh node: return with_loc(node, ast.Constant(value=<e>))
+        if isinstance(k, ast.Call) and _u(k.func) == "ast.Constant" and not k.args and [x.arg for x in k.keywords] == ["value"]:
+            value_expr = k.keywords[0].value
+    if value_expr is None:
+        raise TranslatorError(f"folding body `{_u(c)[:160]}`")
+    t, ty = ExprTr(env={var: ("v", "Z")}).expr(value_expr)
     if ty != "Z":
         raise TranslatorError("folded value is not an integer expression")
     return ("(* Some c: the UnaryOp node is replaced by the constant c (children not visited);\n"
